@@ -180,3 +180,87 @@ def table_length_guard(db):
             if side(x, ['len(a3.values)', 'a1.config.n_columns'], ['rem']) and any(l in ('lit:0',) for l in y):
                 rem = True
     return prod or (div and rem)
+
+
+def bodies(db, fn):
+    """fn followed by the closures created in it, transitively: the source-level body of one function"""
+    out, st = [], [fn]
+    while st:
+        f = st.pop(0)
+        if f in out:
+            continue
+        out.append(f)
+        if f.has_mir and not f.compact:
+            for c in db.closure_creations(f):
+                if c in db.fns:
+                    st.append(db.fns[c])
+    return out
+
+
+def upvars(db, parent, closure_path):
+    """def-use trees (in the parent's terms) of the values a closure created in `parent` captures, by capture index"""
+    import exprtree
+    T = exprtree.Trees(db, parent)
+    for b in parent.blocks:
+        if b.get('cleanup'):
+            continue
+        for s in b['stmts']:
+            if s['k'] == 'assign' and s['rv'].get('k') == 'agg' and s['rv'].get('agg') == 'closure' and s['rv'].get('closure') == closure_path:
+                return [T.operand(o) for o in s['rv']['ops']]
+    return []
+
+
+def strip_ref(t):
+    while isinstance(t, tuple) and t[0] in ('ref', 'deref', 'copy') and len(t) == 2:
+        t = t[1]
+    return t
+
+
+def friendly_selection(db):
+    """which Merkle layers use the verifier-friendly hash: (key, ok, detail, loc) per decision site.
+    table layer : is_bottom_layer_verifier_friendly = n_verifier_friendly_commitment_layers >= height + 1
+    vector layer: hash_friendly_unfriendly(.., n_verifier_friendly_layers >= node depth), selected by that argument"""
+    import exprtree
+    from facts import op_place
+    out = []
+    td = db.fn(TABLE_DECOMMIT, 'friendly-selection')
+    T = exprtree.Trees(db, td)
+    n = 0
+    for bi, t in td.calls():
+        if t['f'].get('resolved') == GEN_VECTOR_QUERIES and len(t['args']) >= 4:
+            ft = T.operand(t['args'][3])
+            flag = exprtree.show(ft)
+            okf = isinstance(ft, tuple) and ft[0] == 'ge' and len(ft) == 3 and \
+                exprtree.show(ft[1]).endswith('vector_commitment.config.n_verifier_friendly_commitment_layers') and \
+                isinstance(ft[2], tuple) and ft[2][0] == 'add' and ('val', 1) in ft[2][1:] and \
+                any(exprtree.show(x).endswith('vector_commitment.config.height') for x in ft[2][1:])
+            out.append(('table-flag', okf, f'is_bottom_layer_verifier_friendly = {flag[:160]} (expected friendly layers >= height + 1)', td.loc(t['line'])))
+            n += 1
+    if not n:
+        out.append(('table-flag', False, 'table_decommit does not call generate_vector_queries', td.loc()))
+    hf = db.fn(HASH_FU, 'friendly-selection')
+    Th = exprtree.Trees(db, hf)
+    sw = [b['term'] for b in hf.blocks if b['term']['k'] == 'switch' and not b.get('cleanup')]
+    okb = any(op_place(t['op']) and op_place(t['op'])['l'] == 3 or exprtree.show(Th.operand(t['op'])) == 'a3' for t in sw)
+    out.append(('vector-switch', okb, 'hash_friendly_unfriendly selects the arm by its is_verifier_friendly argument', hf.loc()))
+    cr = db.fn(COMPUTE_ROOT, 'friendly-selection')
+    Tr = exprtree.Trees(db, cr)
+    k = 0
+    for bi, t in cr.calls():
+        if t['f'].get('resolved') == HASH_FU:
+            s_ = exprtree.show(Tr.operand(t['args'][2]))
+            out.append((f'vector-flag|{k}', s_.startswith('ge(a3,') and s_.endswith('.depth)'),
+                        f'is_verifier_friendly = {s_} (expected n_verifier_friendly_layers >= current.depth)', cr.loc(t['line'])))
+            k += 1
+    # the threshold itself: the commitment's configured count at the top call, unchanged in the recursion
+    vd = db.fn(VECTOR_DECOMMIT, 'friendly-selection')
+    Tv = exprtree.Trees(db, vd)
+    tops = [exprtree.show(Tv.operand(t['args'][2])) for _, t in vd.calls() if t['f'].get('resolved') == COMPUTE_ROOT and len(t['args']) > 2]
+    out.append(('vector-threshold', tops == ['a1.config.n_verifier_friendly_commitment_layers'],
+                f'compute_root_from_queries is started with n_verifier_friendly_layers = {tops}', vd.loc()))
+    rec = [exprtree.show(Tr.operand(t['args'][2])) for _, t in cr.calls() if t['f'].get('resolved') == COMPUTE_ROOT and len(t['args']) > 2]
+    out.append(('vector-threshold-recursion', bool(rec) and all(x == 'a3' for x in rec),
+                f'recursive calls pass n_verifier_friendly_layers = {rec}', cr.loc()))
+    if k < 3:
+        out.append(('vector-flag-site', False, f'{k} hash_friendly_unfriendly call sites in compute_root_from_queries (3 confirmed by reading)', cr.loc()))
+    return out
